@@ -53,7 +53,7 @@ def run_one(m):
                     return res
                 s = s[:idx] + new + s[idx + len(old):]
             open(p, "w").write(s)
-        t = subprocess.run(["go", "test", "-vet=off", "-count=1", "./..."], cwd=tmp, env=ENV, stdout=subprocess.PIPE, stderr=subprocess.STDOUT, text=True)
+        t = subprocess.run(["go", "test", "-vet=off", "-count=1", "./..."], cwd=tmp, env=ENV, stdout=subprocess.PIPE, stderr=subprocess.STDOUT, text=True, errors="replace")
         res["tests"] = "pass" if t.returncode == 0 else "FAIL"
         if t.returncode != 0:
             res["test_output"] = t.stdout[-600:]
@@ -62,7 +62,7 @@ def run_one(m):
         for pid in props:
             env = dict(ENV, VERIF_REPO=tmp)
             t0 = time.time()
-            c = subprocess.run([os.path.join(HERE, "check"), pid, "quick"], cwd=HERE, env=env, stdout=subprocess.PIPE, stderr=subprocess.STDOUT, text=True)
+            c = subprocess.run([os.path.join(HERE, "check"), pid, "quick"], cwd=HERE, env=env, stdout=subprocess.PIPE, stderr=subprocess.STDOUT, text=True, errors="replace")
             first = ""
             for line in c.stdout.splitlines():
                 if line.startswith("--- "):
